@@ -56,6 +56,28 @@ func mutateBody(f *Fault, body []byte, enveloped bool) ([]byte, bool) {
 			return body, false
 		}
 		at := f.At % len(body)
+		if offs := frameOffsets(body); enveloped && f.Val > 0 && len(offs) > 0 {
+			// snapped to the framing: right after the 5-byte prefix of a frame (1), at the start of a
+			// frame after the first (2), inside a prefix (3), one byte short of a frame's end (4)
+			o := offs[f.At%len(offs)]
+			switch f.Val {
+			case 1:
+				at = o + 5
+			case 2:
+				at = o
+			case 3:
+				at = o + 1 + f.At%4
+			default:
+				end := len(body)
+				if i := f.At%len(offs) + 1; i < len(offs) {
+					end = offs[i]
+				}
+				at = end - 1
+			}
+			if at <= 0 || at >= len(body) {
+				at = f.At % len(body)
+			}
+		}
 		return append([]byte{}, body[:at]...), true
 	case FaultBitFlip:
 		if len(body) == 0 {
